@@ -971,8 +971,8 @@ class ICmpOp(IRDLOperation):
 
     @classmethod
     def parse(cls, parser: Parser):
-        predicate_literal = parser.parse_str_literal()
-        predicate = IntegerAttr(ICmpPredicateFlag(predicate_literal).to_int(), i64)
+        predicate_flag = parser.parse_str_enum(ICmpPredicateFlag)
+        predicate = IntegerAttr(predicate_flag.to_int(), i64)
         lhs = parser.parse_unresolved_operand()
         parser.parse_characters(",")
         rhs = parser.parse_unresolved_operand()
